@@ -3,7 +3,7 @@
    importances), for importances given on data cards and on the cell card; and
    the two witnesses showing where the model (= the code) departs from it. *)
 From Coq Require Import List NArith ZArith Bool String Ascii Lia Reals Lra.
-From T4V Require Import Base.Str Base.Scalar C12.Text C12.Model C12.Spec C12.ProofsExpand C12.ProofsCells.
+From T4V Require Import Base.Str Base.Scalar C12.Text C12.Model C12.Spec C12.ProofsExpand C12.ProofsText C12.ProofsCells.
 Import ListNotations.
 Open Scope string_scope.
 Open Scope list_scope.
@@ -236,6 +236,22 @@ Section Deck.
     destruct (skipped_iff_zero RS P _ _ _ _ _ H) as (_ & _ & Hs).
     rewrite (Hs key c Hin), is_zero_real, Himp, <- (max_list_zero xs m Hnn Em).
     split; [intros E; injection E as ->; reflexivity|intros ->; reflexivity].
+  Qed.
+
+  (* the same, stated on the text of the card: options written as words
+     separated by one blank or one '=' sign, made of IMP keywords each followed
+     by a number and of words no branch of the keyword dispatch reacts to *)
+  Theorem plain_card_zero_iff imp_cards cards lats cells skipped r key mat geom ws last xs :
+    parse_cells RS P imp_cards cards lats = Ok (cells, skipped) ->
+    nth_error (dict_of Z.eqb cards) r = Some (key, (Explicit mat geom, join ws last)) ->
+    Forall (fun ws => word (fst ws) /\ sep_ok (snd ws)) ws -> word last ->
+    scan_imps P (map fst ws ++ [last]) = Some xs -> xs <> [] -> nonneg xs ->
+    (In key skipped <-> all_zero xs).
+  Proof.
+    intros H Hn Hw Hl Hs Hne Hnn.
+    apply (cell_card_zero_iff _ _ _ _ _ _ _ _ _ _ _ H Hn); [|exact Hne|exact Hnn].
+    rewrite (option_tokens_join ws last Hw Hl).
+    apply (scan_imps_sound RS P _ _ _ (le_n _) Hs).
   Qed.
 End Deck.
 
